@@ -26,7 +26,7 @@ func deepNest(n int, open, close string) string {
 
 func init() {
 	register("C19", func(c *engine.Ctx) {
-		c.Rule = "every root type of random programs (all features; half of them with --extra-imports so that the YAML methods exist too) x {valid, single-fault and mutated documents, wrong shapes (null, scalars, arrays, deep nesting, huge numbers, long strings), malformed byte strings} x a prior destination value obtained by decoding a valid document first. Each call runs under recover(); after a failed call the destination must re-marshal to exactly what it was. Distinct = distinct (wire, outcome, document class)."
+		c.Rule = "every root type of random programs (all features; half of them with --extra-imports so that the YAML methods exist too) x {valid, single-fault and mutated documents, wrong shapes (null, scalars, arrays, deep nesting, huge numbers, long strings), malformed byte strings} x a prior destination value obtained by decoding a valid document first; plus generated methods on types that are not the root struct (map-typed anyOf branches, named constrained strings, enums, a nested struct), decoded into directly with documents that fail late (an early map entry is fine, a later one is not). Each call runs under recover(); after a failed call the destination must re-marshal to exactly what it was. Distinct = distinct (wire, outcome, document class)."
 		c.Proofs([]string{"GJS.Props.C19"}, []string{
 			"GJS.Props.C19.error_keeps_destination", "GJS.Props.C19.method_all_or_nothing", "GJS.Props.C19.result_independent_of_destination",
 			"GJS.Props.C19.numeric_nil_guard", "GJS.Props.C19.string_nil_guard", "GJS.Props.C19.array_nil_guard", "GJS.Props.C19.null_nil_guard",
@@ -64,10 +64,63 @@ func init() {
 			}
 			pcs = append(pcs, pc)
 		}
+		// generated methods on types that are NOT the root struct: map-typed anyOf branches (the only maps that get a
+		// method), named constrained scalars, enums, nested structs — decoded into directly, with a prior destination,
+		// documents that are valid, wrong-shaped, malformed, and that FAIL LATE (an early entry is fine, a later one is
+		// not): a failed call must leave the destination as it was
+		type subType struct {
+			schema M
+			ty     string
+			prior  string
+			docs   []string
+		}
+		endpoint := M{"type": "object", "properties": M{"host": M{"type": "string", "minLength": 1}, "port": M{"type": "integer", "minimum": 1}}, "required": []any{"host"}}
+		routing := M{"type": "object", "properties": M{"up": M{"anyOf": []any{
+			M{"type": "object", "additionalProperties": M{"$ref": "#/$defs/Endpoint"}},
+			M{"type": "object", "additionalProperties": M{"type": "string"}},
+			M{"type": "object", "additionalProperties": M{"type": "integer", "minimum": 1}},
+		}}}, "$defs": M{"Endpoint": endpoint}}
+		scalars := M{"type": "object", "properties": M{"n": M{"$ref": "#/$defs/Name"}, "k": M{"$ref": "#/$defs/Kind"}, "m": M{"$ref": "#/$defs/Mixed"}, "e": M{"$ref": "#/$defs/Endpoint"}},
+			"$defs": M{"Name": M{"type": "string", "minLength": 2, "maxLength": 5}, "Kind": M{"type": "string", "enum": []any{"a", "b"}}, "Mixed": M{"type": "string", "enum": []any{"x"}}, "Endpoint": endpoint}}
+		subs := []subType{
+			{routing, "RootUp_0", `{"keep":{"host":"k"}}`, []string{`{"a":{"host":"a.example"}}`, `{"a":{"host":"a.example"},"b":{"port":8080}}`, `{"a":{"host":"a"},"b":{"host":""}}`, `{"a":{"host":"a"},"b":5}`, `{"a":{"host":"a"},"b":{"host":"b","port":0}}`}},
+			{routing, "RootUp_1", `{"keep":"v"}`, []string{`{"a":"x"}`, `{"a":"http://a.example","b":5}`, `{"a":"x","b":{}}`, `{"a":"x","b":[1]}`}},
+			{routing, "RootUp_2", `{"keep":7}`, []string{`{"a":1}`, `{"a":1,"b":"s"}`, `{"a":1,"b":1.5}`, `{"a":2,"b":0}`}},
+			{scalars, "Name", `"keep"`, []string{`"abc"`, `"a"`, `"abcdefgh"`, `5`, `{}`}},
+			{scalars, "Kind", `"a"`, []string{`"b"`, `"c"`, `7`, `[]`}},
+			{scalars, "Endpoint", `{"host":"keep","port":9}`, []string{`{"host":"h"}`, `{"port":1}`, `{"host":"h","port":0}`, `{"host":"","port":2}`, `{"host":"h","port":"x"}`}},
+		}
+		for _, st := range subs {
+			for _, yamlToo := range []bool{false, true} {
+				pc := baseCase("c19-sub-types", st.schema, nil, st.ty)
+				pc.DecodeType = st.ty
+				pc.Cfg.ExtraImports = yamlToo
+				wires := []string{"J"}
+				if yamlToo {
+					wires = append(wires, "Y")
+				}
+				for _, w := range wires {
+					for _, d := range st.docs {
+						pc.Extra = append(pc.Extra, core.ExtraDoc{Doc: d, Prior: st.prior, Wire: w}, core.ExtraDoc{Doc: d, Wire: w})
+					}
+					for _, d := range wrongShapes {
+						pc.Extra = append(pc.Extra, core.ExtraDoc{Doc: d, Prior: st.prior, Wire: w})
+					}
+					for _, d := range malformed {
+						pc.Extra = append(pc.Extra, core.ExtraDoc{Doc: d, Prior: st.prior, Wire: w})
+					}
+				}
+				pcs = append(pcs, pc)
+			}
+		}
 		res := runCases(c, pcs)
 		fails := 0
 		for _, r := range res {
 			if r.ExtraRuns == nil {
+				if r.Case.Stream == "c19-sub-types" {
+					fails++
+					c.Fail("oracle", "sub-type program does not generate/compile or lacks the type "+r.Case.DecodeType+": "+r.Real.ErrMsg+r.CompileErr, replayOf(r, -1, nil), false)
+				}
 				continue
 			}
 			for i, rr := range r.ExtraRuns {
